@@ -247,6 +247,7 @@ impl<A: Ord + Clone> ArrL<A> {
             forall|j: int| 0 <= j < old(self).lanes(axis.0 as int).len() ==> perm(#[trigger] final(self).lanes(axis.0 as int)[j], old(self).lanes(axis.0 as int)[j]), // [C03]
             !q.valid_q() ==> r == Err::<ArrS<A>, QuantileError>(QuantileError::InvalidQuantile(q)), // [C17]
             q.valid_q() && old(self).dims()[axis.0 as int] == 0 ==> r matches Err(QuantileError::EmptyInput), // [C17]
+            q.valid_q() && old(self).dims()[axis.0 as int] > 0 ==> r is Ok, // [C17] Ok otherwise
             // one value per lane: the strategy's interpolation of the order statistics floor / ceil(q (n-1)) of that lane
             q.valid_q() && old(self).dims()[axis.0 as int] > 0 ==> (r matches Ok(res) && res.elems().len() == old(self).lanes(axis.0 as int).len()
                 && forall|j: int| 0 <= j < res.elems().len() ==> lane_entry::<A, I>(final(self).lanes(axis.0 as int)[j], q, old(self).dims()[axis.0 as int], #[trigger] res.elems()[j])), // [C01,C19]
@@ -269,6 +270,7 @@ impl<A: Ord + Clone> ArrL<A> {
             perm(final(self).lanes(0)[0], old(self).lanes(0)[0]), // [C03] the array is a permutation of itself
             !q.valid_q() ==> r == Err::<A, QuantileError>(QuantileError::InvalidQuantile(q)), // [C17]
             q.valid_q() && old(self).dims()[0] == 0 ==> r matches Err(QuantileError::EmptyInput), // [C17]
+            q.valid_q() && old(self).dims()[0] > 0 ==> r is Ok, // [C17] Ok otherwise
             // the strategy's interpolation of the order statistics floor / ceil(q (n-1)) of the whole 1-D array
             q.valid_q() && old(self).dims()[0] > 0 ==> (r matches Ok(v) && lane_entry::<A, I>(final(self).lanes(0)[0], q, old(self).dims()[0], v)), // [C01,C19]
 //@at entry
@@ -298,6 +300,7 @@ impl<A: MaybeNan> ArrL<A> {
         ensures
             !q.valid_q() ==> r == Err::<ArrS<A>, QuantileError>(QuantileError::InvalidQuantile(q)), // [C17,C14]
             q.valid_q() && old(self).dims()[axis.0 as int] == 0 ==> r matches Err(QuantileError::EmptyInput), // [C17,C14]
+            q.valid_q() && old(self).dims()[axis.0 as int] > 0 ==> r is Ok, // [C17] Ok otherwise
             // one value per lane: the missing value when the lane has no not-missing element, otherwise the plain quantile
             // (strategy interpolation of the order statistics) of the not-missing elements of that lane
             q.valid_q() && old(self).dims()[axis.0 as int] > 0 ==> (r matches Ok(res) && res.elems().len() == old(self).lanes(axis.0 as int).len()
